@@ -20,6 +20,7 @@ func init() {
 	zzsv.Register("ZZ_C02_StatementValues", ZZ_C02_StatementValues)
 	zzsv.Register("ZZ_C02_SwitchSubjects", ZZ_C02_SwitchSubjects)
 	zzsv.Register("ZZ_C02_TailConditionals", ZZ_C02_TailConditionals)
+	zzsv.Register("ZZ_C02_GuardedReturns", ZZ_C02_GuardedReturns)
 }
 
 // zzGen generates control-flow programs.
@@ -564,4 +565,69 @@ func ZZ_C02_TailConditionals(sv *zzsv.T) {
 	ref, want := zzRunRef(sv, p, g.vars, nil)
 	zzDescribe(sv, "result", out, rerr)
 	zzCompareRun(sv, "C02.tail", e, out, rerr, trace, ref, want, []string{"x", "w1"})
+}
+
+// ZZ_C02_GuardedReturns: blocks that end in a conditional whose arms all
+// return - but which may also be passed without returning: the then-arm of an
+// if/else, an arm of a switch followed by other arms and a default, an
+// else-if chain without a final else, a loop body. What runs afterwards is
+// what the language selects (never the else-arm, a second arm or the default
+// as well).
+func ZZ_C02_GuardedReturns(sv *zzsv.T) {
+	g := newGen(sv, 1)
+	g.small = true
+	c0 := g.intVar("c0")
+	c1 := g.intVar("c1")
+	c2 := g.intVar("c2")
+	ret := func() *zzStmt { return stRet(g.id()) }
+	var guard *zzStmt
+	switch sv.Choice("guard", 4) {
+	case 0: // if without else
+		guard = stIf(xBin("<", c1, xLit(0)), ret())
+	case 1: // else-if chain without a final else, every arm returns
+		inner := stIf(xBin("==", c1, xLit(2)), ret())
+		guard = &zzStmt{kind: sIf, e: xBin("==", c1, xLit(1)), body: []*zzStmt{ret()}, hasEl: true, els: []*zzStmt{inner}, elseIf: true}
+	case 2: // if/else whose arms both return, inside an if without else
+		both := &zzStmt{kind: sIf, e: xBin("<", c2, xLit(5)), body: []*zzStmt{ret()}, hasEl: true, els: []*zzStmt{ret()}}
+		guard = stIf(xBin("<", c1, xLit(0)), both)
+	default: // a switch whose arms return, without default
+		guard = &zzStmt{kind: sSwitch, e: c1, cases: []zzCase{{exprs: []*zzExpr{xLit(1)}, body: []*zzStmt{ret()}}, {exprs: []*zzExpr{xLit(2), xLit(3)}, body: []*zzStmt{ret()}}}}
+	}
+	p := &zzProg{}
+	after := []*zzStmt{stT(g.id()), stRet(xVar("x"))}
+	switch sv.Choice("place", 5) {
+	case 0: // then-arm of an if that has an else
+		p.main = append([]*zzStmt{{kind: sIf, e: xBin("<", xLit(0), c0), body: []*zzStmt{stT(g.id()), guard}, hasEl: true, els: []*zzStmt{stT(g.id()), stSet("x", g.id())}}}, after...)
+	case 1: // an arm of a switch that has further arms and a default
+		sw := &zzStmt{kind: sSwitch, e: c0, cases: []zzCase{
+			{exprs: []*zzExpr{xLit(1)}, body: []*zzStmt{stT(g.id()), guard}},
+			{exprs: []*zzExpr{xLit(1), xLit(2)}, body: []*zzStmt{stT(g.id())}},
+			{dflt: true, body: []*zzStmt{stT(g.id()), stSet("x", g.id())}}}}
+		p.main = append([]*zzStmt{sw}, after...)
+	case 2: // the else-arm
+		p.main = append([]*zzStmt{{kind: sIf, e: xBin("<", xLit(0), c0), body: []*zzStmt{stT(g.id())}, hasEl: true, els: []*zzStmt{guard}}}, after...)
+	case 3: // a loop body
+		p.main = append([]*zzStmt{stEach("", "v", g.iterable(), stT(xVar("v")), guard)}, after...)
+	default: // a function body with an else after it in the caller
+		p.funcs = []*zzFunc{{name: "f", params: []string{"q"}, body: []*zzStmt{{kind: sIf, e: xBin("<", xLit(0), xVar("q")), body: []*zzStmt{guard}, hasEl: true, els: []*zzStmt{stT(g.id())}}, stT(g.id())}}}
+		p.main = append([]*zzStmt{stSet("r", xCall("f", c0)), stT(xVar("r"))}, after...)
+	}
+	g.need("x", func() zv { return zInt(0) })
+	src := p.text()
+	sv.Note("script", src)
+	var trace []object.Object
+	e, err := zzPrepare(sv, src, g.vars, g.order, sv.Choice("noopt", 2) == 1, &trace)
+	sv.Assert("C02.guarded.prepare", err == nil)
+	if err != nil {
+		return
+	}
+	out, rerr := e.Execute(nil)
+	ref, want := zzRunRef(sv, p, g.vars, nil)
+	zzDescribe(sv, "result", out, rerr)
+	if p.funcs != nil && ref.failed {
+		// (a function that ends without return used as a value: outside the definition)
+		sv.Reach("C02.guarded.unspec")
+		return
+	}
+	zzCompareRun(sv, "C02.guarded", e, out, rerr, trace, ref, want, []string{"x", "r"})
 }
